@@ -129,17 +129,17 @@ def programs(tier: str) -> list[Program]:
         for backend in ("memory", "sqlite"):
             for it in (D / 4, D, 4 * D):
                 ps.append(Program(f"{kind}/{backend}/idle_timeout={it}", {"kind": kind, "backend": backend, "idle_timeout": it},
-                                  (lambda ex, kind=kind, backend=backend, it=it: execute(ex, kind, backend, it, 7)), max_dev=(3 if q else 5)))
+                                  (lambda ex, kind=kind, backend=backend, it=it: execute(ex, kind, backend, it, 7 if q else 10)), max_dev=(3 if q else 6)))
             # the timer comes due while the run is in memory but its loop is busy (a slow tick), with and without a restart
             for it in ((4 * D,) if q else (D, 4 * D)):
                 ps.append(Program(f"{kind}/{backend}/idle_timeout={it}/slow_tick", {"kind": kind, "backend": backend, "idle_timeout": it, "busy_ticks": 1},
-                                  (lambda ex, kind=kind, backend=backend, it=it: execute(ex, kind, backend, it, 7, busy_ticks=1)),
-                                  max_dev=(3 if q else 5)))
+                                  (lambda ex, kind=kind, backend=backend, it=it: execute(ex, kind, backend, it, 7 if q else 10, busy_ticks=(1 if q else 2))),
+                                  max_dev=(3 if q else 6)))
     return ps
 
 
 RULE = ("a step waiting out a retry delay D=8 s and a step whose wait_for_event timeout T=8 s is pending, on the real server stack over "
-        "MemoryWorkflowStore / SqliteWorkflowStore with idle_timeout in {D/4, D, 4D} x no restart / process stop after each of the first 7 "
+        "MemoryWorkflowStore / SqliteWorkflowStore with idle_timeout in {D/4, D, 4D} x no restart / process stop after each of the first 7 (thorough: 10) "
         "persisted ticks + restart on the surviving store x all orders of idle-timer, release and retry / timeout timer firings up to "
         "the horizon (every timer below 1000 s fired), plus programs in which one tick keeps the loop busy until after the pending timer's due time; at the horizon the handler must be completed with the retried / timed-out "
         "result; non-trivial = at least one deviation or a restart")
